@@ -31,10 +31,16 @@ def build(d):
     if k == "N":
         return d[1]
     if k == "S":
-        return np.float64(d[1]) if d[2] == "f" else np.int64(d[1])
+        if d[2] == "f":
+            return np.float64(d[1])
+        if d[2] == "u":
+            return np.uint8(d[1])                       # unsigned scalar: -x wraps around
+        return np.int64(d[1])
     if k == "V":
         if len(d) > 2 and d[2] == "i":
             return np.array([int(v) for v in d[1]])          # integer dtype, as np.array([2, 3, 5])
+        if len(d) > 2 and d[2] == "u":
+            return np.array([int(v) for v in d[1]], dtype=np.uint16)   # unsigned dtype
         return np.array(d[1], dtype=float)
     if k == "Z":
         return np.array(float(d[1]))
@@ -222,13 +228,18 @@ def gen_cases(ctx):
         xs = [rng.choice(G) for _ in range(n)]
         ivl = rng.choice([("I", iv[0], iv[1]), ("A", [x[0] for x in xs], [x[1] for x in xs])])
         x = rng.choice(nums)
-        kind = rng.choice(["N", "N", "Sf", "Si", "V", "V", "Z", "B"])
+        kind = rng.choice(["N", "N", "Sf", "Si", "Su", "V", "V", "Vu", "Z", "B"])
         if kind == "N":
             o = ("N", x)
         elif kind == "Sf":
             o = ("S", float(x), "f")
         elif kind == "Si":
             o = ("S", int(x), "i")
+        elif kind == "Su":
+            o = ("S", rng.choice([0, 1, 2, 3, 200]), "u")
+        elif kind == "Vu":
+            m = rng.choice([n, n, 1, 2]) if ivl[0] == "A" else rng.choice([1, 2, 3])
+            o = ("V", [rng.choice([1, 2, 3, 5, 40000]) for _ in range(m)], "u")
         elif kind == "V":
             m = rng.choice([n, n, 1, 2]) if ivl[0] == "A" else rng.choice([1, 2, 3])
             if rng.random() < 0.35:      # integer-dtype ndarray (np.reciprocal, // and in-place ops behave differently there)
@@ -366,7 +377,44 @@ def run(ctx: core.Check, cases=None):
                      f"{l} {op} {r}: implementation gives {_js(impl)}, exact set image is {_js(exp)}")
         if len(ctx.samples) < 5 and stream.startswith(("grid-aa", "random-ss", "kinds")):
             ctx.sample({"stream": stream, "op": op, "l": l, "r": r, "impl": _js(impl), "model": rep})
+    same_object_stream(ctx)
     recheck_kept(ctx)
+
+
+def same_object_stream(ctx):
+    """X op X with the SAME object on both sides (no shortcut such as X*X -> X**2 is valid: the operands are
+    independent occurrences for interval arithmetic)"""
+    rng = ctx.rng
+    G = grid_intervals()
+    descs = [("I", a, b) for a, b in G]
+    for _ in range(ctx.scale(60, 600)):
+        xs = [rng.choice(G) for _ in range(rng.choice([1, 2, 4]))]
+        descs.append(("A", [x[0] for x in xs], [x[1] for x in xs]))
+    reqs, meta = [], []
+    for d in descs:
+        for op in OPS:
+            reqs.append(f"bin {op} {wire(d)} {wire(d)}")
+            meta.append((op, d))
+    reps = core.model_batch("C01", reqs)
+    for (op, d), rep in zip(meta, reps):
+        ctx.count(("same", op, d), True, "same-object")
+        try:
+            X = build(d)
+            impl = canon_impl(OPS[op](X, X))
+        except BaseException as e:  # noqa
+            impl = ("err", err_kind(e))
+        model = parse_model(rep)
+        ex = op != "div"
+        if same(impl, model, ex, 2):
+            ctx.tie_ok()
+        else:
+            ctx.tie_bad("same-object", {"op": op, "l": d, "r": d}, _js(impl), _js(model))
+        exp = expected(op, d, d)
+        if exp is not None and not same(impl, exp, ex, 2):
+            ctx.fail({"op": op, "lkind": d[0], "rkind": d[0], "symptom": "value" if impl[0] == "ok" else "raises:" + impl[1],
+                      "call": "Interval operator (same object on both sides)"},
+                     {"op": op, "l": d, "r": "the same object", "impl": _js(impl), "expected": _js(exp)},
+                     f"X {op} X with X = {d} (one object): implementation gives {_js(impl)}, exact set image is {_js(exp)}")
 
 
 def recheck_kept(ctx):
